@@ -23,7 +23,11 @@ package cmd
 //   - spellings that denote the SAME resource under RFC 3986 §6 normalisation or DNS (scheme/host case, percent-encoded
 //     unreserved character, explicit default port, fragment, user-info in front of the same host, trailing dot on the
 //     host) are counted per family with their outcome but not judged: refusing them (HEAD) and normalising them are both fine.
-// Non-strict mode: unlisted URLs are fetched.
+// Non-strict mode: unlisted URLs load.
+// "Loads" and "refused" are judged by the OUTCOME (LoadDocument returns the document / a document using the context's
+// vocabulary passes AllFieldsDefined), because NewContextLoader puts an ld.CachingDocumentLoader (one per configured
+// instance, behind the filter) in the chain: a URL requested twice through one instance is fetched once. "Refused" in
+// strict mode additionally demands that no outbound request was recorded.
 
 import (
 	"fmt"
@@ -257,7 +261,7 @@ func c20GenLD(t *rapid.T) c20LDCase {
 	if c.List == "custom" {
 		n := rapid.IntRange(1, 3).Draw(t, "n")
 		for i := 0; i < n; i++ {
-			e := c20Entry{Scheme: "https", Host: "ctx-" + label.Draw(t, "host") + rapid.SampledFrom([]string{".verif-ld.nl", ".verif-ld.org", ".ld.verif-ld.nl"}).Draw(t, "dom")}
+			e := c20Entry{Scheme: "https", Host: fmt.Sprintf("ctx%d-", i) + label.Draw(t, "host") + rapid.SampledFrom([]string{".verif-ld.nl", ".verif-ld.org", ".ld.verif-ld.nl"}).Draw(t, "dom")}
 			switch rapid.IntRange(0, 4).Draw(t, "shape") {
 			case 0: // bare authority, like https://schema.org
 			case 1:
@@ -284,7 +288,7 @@ func c20GenLD(t *rapid.T) c20LDCase {
 	}
 	no := rapid.IntRange(1, 3).Draw(t, "nother")
 	for i := 0; i < no; i++ {
-		c.Other = append(c.Other, rapid.SampledFrom([]string{"https", "https", "http"}).Draw(t, "oscheme")+"://"+label.Draw(t, "ohost")+".verif-other.nl/"+label.Draw(t, "opath"))
+		c.Other = append(c.Other, rapid.SampledFrom([]string{"https", "https", "http"}).Draw(t, "oscheme")+"://"+label.Draw(t, "ohost")+fmt.Sprintf(".o%d", i)+".verif-other.nl/"+label.Draw(t, "opath"))
 	}
 	return c
 }
@@ -400,8 +404,10 @@ func c20RunLD(x *h.Ctx, c c20LDCase) {
 		switch {
 		case isMapped[a] && (err != nil || len(hits) > 0):
 			x.Violate("embedded-context-not-local:"+mode, "locally mapped context %s: err=%v outbound=%v", a, err, hits)
-		case !isMapped[a] && (err != nil || len(hits) == 0):
-			x.Violate("allowlisted-context-refused:"+mode, "%s mode: %s is on jsonld.contexts.remoteallowlist (%v via %s) but was not fetched: err=%v", mode, a, list, c.Ch, err)
+		case !isMapped[a] && err != nil:
+			// judged by the outcome, not by a recorded request: the loader caches per instance, so a URL that occurs twice
+			// (duplicate list entries) is fetched once
+			x.Violate("allowlisted-context-refused:"+mode, "%s mode: %s is on jsonld.contexts.remoteallowlist (%v via %s) but was not loaded: err=%v requests=%v", mode, a, list, c.Ch, err, hits)
 		case !isMapped[a]:
 			if verr := jsonld.AllFieldsDefined(loader, c20VocabDoc(a)); verr != nil {
 				x.Violate("allowlisted-context-unusable:"+mode, "%s mode: document using the vocabulary of allow-listed context %s fails: %v", mode, a, verr)
@@ -427,8 +433,10 @@ func c20RunLD(x *h.Ctx, c c20LDCase) {
 			if verr := jsonld.AllFieldsDefined(loader, c20VocabDoc(u)); verr == nil {
 				x.Violate("strict-capability-present:jsonld-unlisted-remote-context", "strict mode: a document whose vocabulary comes from unlisted context %s passes AllFieldsDefined", u)
 			}
-		} else if err != nil || len(hits) == 0 {
-			x.Violate("nonstrict-capability-absent:jsonld-remote-context", "non-strict mode: unlisted context %s was not fetched: err=%v", u, err)
+		} else if err != nil {
+			x.Violate("nonstrict-capability-absent:jsonld-remote-context", "non-strict mode: unlisted context %s was not loaded: err=%v requests=%v", u, err, hits)
+		} else if verr := jsonld.AllFieldsDefined(loader, c20VocabDoc(u)); verr != nil {
+			x.Violate("nonstrict-capability-absent:jsonld-remote-context", "non-strict mode: a document using the vocabulary of unlisted context %s fails: %v", u, verr)
 		}
 	}
 	if c.Strict {
@@ -446,8 +454,8 @@ func c20RunLD(x *h.Ctx, c c20LDCase) {
 				}
 				srv.rec.take()
 				_, err := loader.LoadDocument(nm.URL)
-				if hits := srv.rec.take(); err != nil || len(hits) == 0 {
-					x.Violate("nonstrict-capability-absent:jsonld-remote-context", "non-strict mode: %s was not fetched: err=%v", nm.URL, err)
+				if hits := srv.rec.take(); err != nil {
+					x.Violate("nonstrict-capability-absent:jsonld-remote-context", "non-strict mode: %s was not loaded: err=%v requests=%v", nm.URL, err, hits)
 				}
 			}
 		}
